@@ -15,7 +15,7 @@ import (
 
 var c12Forms = []struct{ name, sql string }{
 	{"col", "n1"}, {"col.missing", "nokey"}, {"path", "`obj.k`"}, {"path.array", "`arr[each].e`"}, {"lit.num", "3"}, {"lit.str", "'x'"}, {"lit.null", "NULL"}, {"lit.bool", "true"},
-	{"arith", "(n1 + 1)"}, {"arith.nested", "((n1 * 2) - (n2 / 4))"}, {"arith.null", "(z1 + 1)"}, {"unary.minus", "-(n1)"}, {"unary.tilde", "~(rid)"}, {"unary.bang", "!(b1 = true)"},
+	{"arith", "(n1 + 1)"}, {"arith.nested", "((n1 * 2) - (n2 / 4))"}, {"arith.null", "(z1 + 1)"}, {"arith.divzero", "(n1 / 0)"}, {"arith.modzero", "(n1 % (n2 - n2))"}, {"arith.intdivzero", "(rid DIV (n1 - n1))"}, {"arith.zerozero", "((n1 - n1) / (n2 - n2))"}, {"unary.minus", "-(n1)"}, {"unary.tilde", "~(rid)"}, {"unary.bang", "!(b1 = true)"},
 	{"cmp", "(n1 > 1)"}, {"in", "(n1 IN (1, 2, 3))"}, {"between", "(n1 BETWEEN 0 AND 3)"}, {"like", "(s1 LIKE 'a%')"}, {"is", "(b1 IS TRUE)"}, {"isnull", "(z1 IS NULL)"}, {"not", "(NOT (b1 = true))"}, {"andor", "(n1 > 0 AND (b1 = true OR n2 < 1))"},
 	{"case.col", "CASE WHEN b1 = true THEN s1 ELSE 'z' END"}, {"case.lit", "CASE WHEN n1 > 1 THEN 'big' END"}, {"case.arith", "CASE WHEN n1 > 1 THEN (n1 * 2) ELSE (n2 - 1) END"},
 	{"case.nested", "CASE WHEN n1 > 1 THEN CASE WHEN b1 = true THEN n2 ELSE s1 END ELSE NULL END"},
